@@ -490,6 +490,90 @@ func (w *world) scenarioRelockThenLatePolka() {
 	w.fire(pbft.RoundStepPropose)
 }
 
+// scenarioStalePolka: round r0 ends without a polka at V (part of the prevotes for A is held back),
+// V locks B in r0+1 and moves on to r0+2; only then the held-back r0 prevotes arrive and complete a
+// polka for A in a round EARLIER than V's lock. That must not release the lock: V still prevotes B
+// (or proposes B) in r0+2 although a fresh block is proposed.
+func (w *world) scenarioStalePolka() {
+	rs := w.rs()
+	if rs.Height != w.h || w.failed {
+		return
+	}
+	r0 := rs.Round
+	own := func() *blk {
+		w.drain()
+		w.learnOwn()
+		if len(w.blocks) > 0 {
+			return w.blocks[len(w.blocks)-1]
+		}
+		return nil
+	}
+	var A *blk
+	if p := w.proposerAt(r0); p == w.V {
+		A = own()
+	} else if p >= 0 {
+		if A = w.newBlock(p); A != nil {
+			w.propose(r0, A, true, false)
+		}
+	}
+	if A == nil {
+		return
+	}
+	w.fire(pbft.RoundStepPropose)
+	var late []int
+	for _, j := range w.puppetsInOrder() {
+		if (w.power(types.VoteTypePrevote, r0, A.hex)+w.powers[j])*3 > w.total*2 {
+			late = append(late, j) // would complete the polka: arrives two rounds later
+			continue
+		}
+		w.vote(j, types.VoteTypePrevote, r0, A, "valid")
+	}
+	if len(late) == 0 {
+		return
+	}
+	// +2/3 of anything is needed to leave the prevote step: one of the late ones votes nil first? no -
+	// a validator votes once; let the round end through the precommits instead
+	w.fire(pbft.RoundStepPrevoteWait)
+	w.moveOn(r0)
+	if r := w.rs(); r.Height != w.h || r.Round != r0+1 || r.LockedBlock != nil {
+		return
+	}
+	// r0+1: B gets a full polka, V locks it
+	r1 := r0 + 1
+	var B *blk
+	if p1 := w.proposerAt(r1); p1 == w.V {
+		B = own()
+	} else if p1 >= 0 {
+		if B = w.newBlock(p1); B != nil {
+			w.propose(r1, B, true, false)
+		}
+	}
+	if B == nil || B.hex == A.hex {
+		return
+	}
+	w.fire(pbft.RoundStepPropose)
+	w.votesFrom(types.VoteTypePrevote, r1, B, 1.0)
+	if r := w.rs(); r.LockedBlock == nil || r.LockedRound != r1 {
+		return
+	}
+	w.moveOn(r1)
+	if r := w.rs(); r.Height != w.h || r.Round != r1+1 {
+		return
+	}
+	// r0+2: the stragglers of r0 arrive: polka for A in r0 < lock round
+	for _, j := range late {
+		w.vote(j, types.VoteTypePrevote, r0, A, "valid")
+	}
+	w.stats["scenario_stale_polka"]++
+	r2 := r1 + 1
+	if p2 := w.proposerAt(r2); p2 >= 0 && p2 != w.V {
+		if C := w.newBlock(p2); C != nil {
+			w.propose(r2, C, true, false)
+		}
+	}
+	w.fire(pbft.RoundStepPropose)
+}
+
 func (w *world) anyBlock() *blk {
 	if len(w.blocks) == 0 || w.rng.Float64() < 0.15 {
 		return nil
@@ -616,6 +700,9 @@ func runCase(run *lib.Run, c int64, base string) {
 	if c%6 == 0 {
 		w.scenarioRelockThenLatePolka()
 	}
+	if c%6 == 3 {
+		w.scenarioStalePolka()
+	}
 	steps := lib.Pick(120, 200)
 	for s := 0; s < steps && !w.failed; s++ {
 		w.step()
@@ -670,5 +757,7 @@ func main() {
 	run.Require("prevotes_while_locked_rule_applies", 100)
 	run.Require("prevote_other_after_unlock_polka", 5)
 	run.Require("v_commits", 50)
+	run.Require("scenario_stale_polka", 50)
+	run.Require("scenario_relock_late_polka", 50)
 	os.Exit(run.Finish())
 }
